@@ -5,11 +5,15 @@
    (C13_reader_absorbs_trivia); input consisting only of trivia reads as end of input -- the end-of-input error, or
    exactly the caller's end-of-input value with no error (C13_trivia_only_document); no handler is invoked while a
    form is being discarded and the flag is restored.
+   On the fragment of Properties_C03 (integers, keywords, vectors, lists; any size and nesting) two whole documents that
+   render one term with DIFFERENT trivia are read to values that edn_value_equal judges equal and that hash alike
+   (C13_renderings_read_equal; nesting below the equality's own depth cap, finding K10).
    PARTIAL: that a DISCARDED FORM in front of a form leaves the value unchanged, and the comparison of two different
    documents (with / without the trivia, positions shifted) is decided by the correspondence run + metamorphic oracle. *)
-From Coq Require Import ZArith NArith List Bool.
+From Coq Require Import ZArith NArith List Bool String.
 From Coq.Strings Require Import Byte.
 From Verif Require Import Lanes Common Values Scan Reader ScanProofs TriviaProofs TriviaReader DiscardInv.
+From Verif Require Import Equality Configs FlagProofs RoundTrip RoundTripWs RoundTripEq.
 Import ListNotations.
 
 (* whitespace bytes, commas and LF-terminated comments in front of anything: the scanner
@@ -54,9 +58,30 @@ Theorem C13_trivia_only_document : forall c o handler xe xh sort m e f t st,
     calls (r_state r) = [].
 Proof. exact read_doc_trivia_only. Qed.
 
+
+(* whole documents of the fragment: whatever trivia two renderings of one term contain, the two runs succeed and the
+   two values are equal under the library's equality and have the same hash *)
+Theorem C13_renderings_read_equal : forall c o m1 m2 a1 a2, In c all_cfgs -> awf a1 -> awf a2 -> erase a1 = erase a2 ->
+  (tdepth (erase a1) <= max_depth)%nat ->
+  slice m1 0 (List.length (prg a1)) = prg a1 -> slice m2 0 (List.length (prg a2)) = prg a2 ->
+  exists r1 s1 n1 r2 s2 n2,
+    run_doc c o m1 (N.of_nat (List.length (prg a1))) = Ret r1 s1 /\ r_value r1 = Some n1 /\ r_err r1 = EOk /\
+    run_doc c o m2 (N.of_nat (List.length (prg a2))) = Ret r2 s2 /\ r_value r2 = Some n2 /\ r_err r2 = EOk /\
+    equal c no_ext_equal n1 n2 = true /\ hash_value c no_ext_hash n1 = hash_value c no_ext_hash n2.
+Proof. exact renderings_read_equal. Qed.
+(* non-vacuity: "[1, ( :a;c<LF>-20<TAB>),[] ]" is such a rendering of [1 (:a -20) []] *)
+Example C13_rendering_example :
+  let a := ASeq true [([], AInt false ["1"%byte]); ([","; " "]%byte, ASeq false [([" "]%byte, AKw ["a"%byte]); ([";"; "c"; "010"]%byte, AInt true ["2"; "0"]%byte)] ["009"%byte]);
+                      ([","]%byte, ASeq true [] [])] [" "]%byte in
+  awf a /\ prg a = list_byte_of_string ("[1, ( :a;c" ++ String (Ascii.ascii_of_nat 10) ("-20" ++ String (Ascii.ascii_of_nat 9) "),[] ]")) /\
+  erase a = TVec [TInt false ["1"%byte]; TList [TKw ["a"%byte]; TInt true ["2"; "0"]%byte]; TVec []] /\
+  (tdepth (erase a) <= max_depth)%nat.
+Proof. exact rendering_example. Qed.
+
 Example C13_example : trivia [" "; ","; ";"; "x"; "010"; "009"]%byte.
 Proof. reflexivity. Qed.
 
+Print Assumptions C13_renderings_read_equal.
 Print Assumptions C13_reader_absorbs_trivia.
 Print Assumptions C13_trivia_only_document.
 Print Assumptions C13_trivia_insertion.
